@@ -30,7 +30,9 @@ pub trait Monitor: Sync + Send {
     fn id(&self) -> &'static str;
     /// build configurations whose workers run this monitor
     fn configs(&self, _tier: Tier) -> Vec<&'static str> {
-        vec!["checked"]
+        // both build configurations by default: a slip hidden behind debug_assertions or
+        // overflow checks shows in only one of them
+        vec!["checked", "release"]
     }
     fn run(&self, ctx: &mut Ctx);
     fn judge(&self, case: &Case, st: &mut Stats) -> Verdict;
